@@ -10,7 +10,7 @@
 //!          | "v" v | "set" v str | "mac" v str | "imp" t v | "from" t name alias
 //!          | "attr" v a | "keys" v | "call" v | "req" | "ssuper" v | "sself" v m | "self" m
 //!          | "for" v k strs.. nitems items.. | "inmac" m arg str nitems items.. | "ae" mode nitems items..
-//!          | "bad" kind
+//!          | "bad" kind | "macv" m w
 //! fam     := name [ "~" L S P U B ]   (configuration, see `Cfgv`)
 //!
 //! Result: `ok:<output>` | `err:<kind chain>` | `panic` | `hang` | `crash:<status>` | `syntax:<kind>`
@@ -38,6 +38,8 @@ enum Item {
     EmitVar(usize),
     SetVar(usize, String),
     DefMacro(usize, String),
+    /// `{% macro vM() %}<mM:{{ vW }}>{% endmacro %}`: a macro with a free variable
+    DefMacroV(usize, usize),
     ImportAs(usize, usize),
     FromImport(usize, usize, usize),
     EmitAttr(usize, usize),
@@ -122,6 +124,11 @@ fn ser_item(it: &Item, out: &mut Vec<String>) {
             out.push("mac".into());
             out.push(v.to_string());
             out.push(s.clone());
+        }
+        DefMacroV(m, w) => {
+            out.push("macv".into());
+            out.push(m.to_string());
+            out.push(w.to_string());
         }
         ImportAs(t, v) => {
             out.push("imp".into());
@@ -238,6 +245,7 @@ impl<'a> Toks<'a> {
             "v" => EmitVar(self.num()?),
             "set" => SetVar(self.num()?, self.next()?.to_string()),
             "mac" => DefMacro(self.num()?, self.next()?.to_string()),
+            "macv" => DefMacroV(self.num()?, self.num()?),
             "imp" => ImportAs(self.num()?, self.num()?),
             "from" => FromImport(self.num()?, self.num()?, self.num()?),
             "attr" => EmitAttr(self.num()?, self.num()?),
@@ -428,6 +436,13 @@ fn print_items(pr: &Pr, t: &Tmpl, items: &[Item], used: &mut Vec<usize>, out: &m
             DefMacro(v, s) => {
                 out.push_str(&pr.blk(&format!("macro v{v}()")));
                 out.push_str(s);
+                out.push_str(&pr.blk("endmacro"));
+            }
+            DefMacroV(m, w) => {
+                out.push_str(&pr.blk(&format!("macro v{m}()")));
+                out.push_str(&format!("<m{m}:"));
+                out.push_str(&pr.var(&format!("v{w}")));
+                out.push_str(">");
                 out.push_str(&pr.blk("endmacro"));
             }
             ImportAs(t, v) => out.push_str(&pr.blk(&format!("import \"{}\" as v{v}{}", pr.rf(*t), ctx_marker(t + v)))),
@@ -1536,6 +1551,145 @@ fn load_error_families(out: &mut Vec<Case>) {
     }
 }
 
+/// macro closures across template composition: the includer declares a macro over the free
+/// variable v3 and (re)assigns v3 before / after the tag; the included file (or a library that
+/// itself includes a second file) assigns v3 and declares its own macro over it; macros are
+/// called on both sides, before and after
+fn closure_families(out: &mut Vec<Case>, thorough: bool) {
+    let w = 3usize;
+    for use_kind in 0..4usize {
+        for a in 0..16usize {
+            for b in 0..64usize {
+                // quick: a sample of the 4096 combinations per kind, thorough: all
+                if !thorough && (a * 64 + b + use_kind) % 5 != 0 {
+                    continue;
+                }
+                let mut l0 = vec![tx("a".into())];
+                if a & 1 != 0 {
+                    l0.push(SetVar(w, "A<0".into()));
+                }
+                l0.push(DefMacroV(5, w));
+                if a & 2 != 0 {
+                    l0.push(CallVar(5));
+                }
+                let mut blocks0 = vec![];
+                match use_kind {
+                    0 => l0.push(Incl { names: vec![1], ign: false }),
+                    1 => {
+                        l0.push(ImportAs(1, 8));
+                        l0.push(EmitAttr(8, w));
+                    }
+                    2 => {
+                        l0.push(FromImport(1, 6, 7));
+                        l0.push(CallVar(7));
+                    }
+                    _ => {
+                        // the include sits in a block: another frame
+                        l0.push(CallBlock(0));
+                        blocks0.push((0, vec![SetVar(w, "K0".into()), DefMacroV(4, w), Incl { names: vec![1], ign: false }, CallVar(4), CallVar(5)]));
+                    }
+                }
+                if a & 4 != 0 {
+                    l0.push(SetVar(w, "A&1".into()));
+                }
+                l0.push(CallVar(5));
+                if a & 8 != 0 {
+                    l0.push(CallVar(6));
+                }
+                l0.push(EmitVar(w));
+                let mut l1 = vec![tx("b".into())];
+                if b & 1 != 0 {
+                    l1.push(SetVar(w, "B0".into()));
+                }
+                if b & 2 != 0 {
+                    l1.push(DefMacroV(6, w));
+                }
+                if b & 4 != 0 {
+                    l1.push(Incl { names: vec![2], ign: false });
+                }
+                if b & 8 != 0 {
+                    l1.push(SetVar(w, "B<1".into()));
+                }
+                if b & 16 != 0 {
+                    l1.push(CallVar(6));
+                }
+                if b & 32 != 0 {
+                    l1.push(CallVar(5));
+                }
+                let l2 = vec![tx("c".into()), SetVar(w, "C0".into()), DefMacroV(9, w), SetVar(w, "C1".into()), CallVar(9)];
+                out.push(Case {
+                    fam: "closures".into(),
+                    tmpls: vec![simple(l0, blocks0), simple(l1, vec![]), simple(l2, vec![])],
+                });
+            }
+        }
+    }
+    // macro libraries: several macros per file share the file's one closure (declared before
+    // and after the include tag), the library itself split over two files via include
+    for c in 0..16usize {
+        let mut l0 = vec![tx("a".into()), SetVar(w, "A0".into()), DefMacroV(5, w)];
+        if c & 1 != 0 {
+            l0.push(DefMacroV(4, w));
+        }
+        l0.push(Incl { names: vec![1], ign: false });
+        if c & 2 != 0 {
+            l0.push(DefMacroV(4, w));
+        }
+        l0.push(SetVar(w, "A<1".into()));
+        l0.push(CallVar(5));
+        if c & 3 != 0 {
+            l0.push(CallVar(4));
+        }
+        l0.push(CallVar(6));
+        if c & 4 != 0 {
+            l0.push(CallVar(2));
+        }
+        let mut l1 = vec![tx("b".into()), SetVar(w, "B0".into()), DefMacroV(6, w)];
+        if c & 4 != 0 {
+            l1.push(DefMacroV(2, w));
+        }
+        if c & 8 != 0 {
+            l1.push(Incl { names: vec![2], ign: false });
+        }
+        l1.push(SetVar(w, "B&1".into()));
+        l1.push(CallVar(6));
+        if c & 4 != 0 {
+            l1.push(CallVar(2));
+        }
+        if c & 8 != 0 {
+            l1.push(CallVar(9));
+        }
+        let l2 = vec![tx("c".into()), SetVar(w, "C0".into()), DefMacroV(9, w), SetVar(w, "C1".into()), CallVar(9)];
+        out.push(Case {
+            fam: "closures-library".into(),
+            tmpls: vec![simple(l0, vec![]), simple(l1, vec![]), simple(l2, vec![])],
+        });
+    }
+    // macros through an extends chain: the child declares the macro, the parent assigns the
+    // variable and calls the macro from its layout and from a block
+    for a in 0..8usize {
+        let mut l0 = vec![];
+        if a & 1 != 0 {
+            l0.push(SetVar(w, "A0".into()));
+        }
+        l0.push(DefMacroV(5, w));
+        l0.push(ext('s', 1));
+        if a & 2 != 0 {
+            l0.push(SetVar(w, "A1".into()));
+        }
+        l0.push(CallBlock(0));
+        let t0 = simple(l0, vec![(0, vec![tx("c0".into()), CallVar(5), Super])]);
+        let mut l1 = vec![tx("p".into()), CallVar(5)];
+        if a & 4 != 0 {
+            l1.push(SetVar(w, "P0".into()));
+        }
+        l1.push(CallVar(5));
+        l1.push(CallBlock(0));
+        let t1 = simple(l1, vec![(0, vec![tx("p0".into()), SetVar(w, "PB".into()), CallVar(5)])]);
+        out.push(Case { fam: "closures-extends".into(), tmpls: vec![t0, t1] });
+    }
+}
+
 fn cases(tier: &str) -> Vec<Case> {
     let thorough = tier == "thorough";
     let mut rng = Rng::new(seed_from_env());
@@ -1543,6 +1697,7 @@ fn cases(tier: &str) -> Vec<Case> {
     regressions(&mut out);
     mode_families(&mut out);
     load_error_families(&mut out);
+    closure_families(&mut out, thorough);
     error_families(&mut out);
     all_small(&mut out, thorough);
     let n_plain = if thorough { 50_000 } else { 2_500 };
